@@ -4,6 +4,8 @@ from harness.scen import call, LOOK_TO, GO
 
 class C16(scen.WorldProp):
     id = "C16"
+    fuzz_kinds = {"ring", "call"}
+    fuzz_times = False
     lean_module = "Wheatley.Props.C16"
     theorems = ["Wheatley.C16.comp_next",
                 "Wheatley.C16.comp_rows",
@@ -12,7 +14,8 @@ class C16(scen.WorldProp):
                 "Wheatley.C16.calls_with_lead",
                 "Wheatley.C16.no_calls_tick",
                 "Wheatley.C16.no_calls_go",
-                "Wheatley.C16.late_go_flush"]
+                "Wheatley.C16.late_go_flush",
+                "Wheatley.C16.rounds_carry_no_stale_calls"]
     level_text = ("theorems: a composition generator yields the payload's rows in order then rounds for ever; calls "
                   "attached to a row are exactly the payload's (minus 'Stand'); with calls off no call is ever emitted "
                   "(arbitrary payloads / states). correspondence: fake CompLib payloads (stage 4-10, 1-3 opening "
@@ -35,14 +38,30 @@ class C16(scen.WorldProp):
             I = scen.interval(ps, N)
             row_t = I * (N + 0.5)
             t0 = 1000.0 + rng.random()
-            events = [call(t0, LOOK_TO)]
+            events = []
+            again = rng.random() < 0.3
+            if again:
+                # an earlier touch of the same loaded composition in this session: rung for a while
+                # (part of it, or all of it), stood, and then the touch that is judged
+                tA = t0 + 0.3
+                k = rng.uniform(2, len(spec["rows"]) + 4)
+                events += [call(tA, LOOK_TO), call(tA + 3 + k * row_t, scen.STAND)]
+                if not udi:
+                    events.append(call(tA + 3 + rng.uniform(0, 2) * row_t, GO))
+                t0 = tA + 3 + (k + 3) * row_t + 1 + rng.random()
+                events.append([t0 - 0.3, "msg", {"m": "global_state", "state": [True] * N}])
+            events.append(call(t0, LOOK_TO))
             if not udi:
                 events.append(call(t0 + 3 + rng.uniform(-0.5, 5) * row_t, GO))
+            events.sort(key=lambda e: e[0])
             end = t0 + 3 + (len(spec["rows"]) + 10) * row_t
             sc = {"start": 1000.0, "end": end, "tower_size": N, "events": events,
                   "bot": scen.bot_cfg(spec, up_down_in=udi, call_comps=cc),
                   "rhythm": scen.rhythm_cfg("regression", peal_speed=ps)}
-            yield {"k": "world", "scenario": sc}
+            yield {"k": "world", "scenario": sc, "t0": t0, "again": again}
+
+    def tag(self, req, reply):
+        return ("second-touch:" if req.get("again") else "") + super().tag(req, reply)
 
     def nontrivial(self, req, reply):
         return len(scen.calls_made(reply)) > 0
@@ -54,6 +73,10 @@ class C16(scen.WorldProp):
         N = sc["tower_size"]
         spec = sc["bot"]["gen"]
         stage = spec["stage"]
+        if req.get("again"):
+            # judge the touch that follows the last Look To (the earlier one only sets the scene)
+            reply = dict(reply, strikes=[x for x in reply["strikes"] if scen.b2f(x[0]) >= req["t0"]],
+                         obs=[o for o in reply["obs"] if scen.b2f(o[0]) >= req["t0"]])
         rows = scen.rows_from_strikes(reply, N)
         calls = scen.calls_made(reply)
         if not sc["bot"]["call_comps"]:
